@@ -12,6 +12,8 @@
 //   - slow-reader stage (slow.go): a peer that plays over interleaved TCP and stops reading while the
 //     stream is fed with bursts of large packets, so that the session's writer blocks in a socket write;
 //     requests / garbage / closes at chosen points of the write timeout; oracle-only, one child per scenario.
+//   - tunnel-storm stage (storm.go): RTSP-over-HTTP handshake halves that share cookies, written at a common
+//     instant on groups of pre-opened connections (duplicated / replayed halves), round after round; oracle-only.
 package main
 
 import (
@@ -878,7 +880,7 @@ func main() {
 	defer ctx.Finish()
 	scenLog, _ = os.Create(ctx.Out + "/scenarios.txt")
 	defer scenLog.Close()
-	ctx.Rule("ledger scenarios: valid RTSP conversations (play TCP/UDP/multicast, record TCP/UDP; plain, WebSocket and HTTP-tunnel carriers; 1-2 connections) mutated at grammar level (steps dropped/duplicated/swapped/spliced/truncated, frames / responses / garbage injected, header fields deleted / duplicated / randomised, Transport lists, SDP bodies, URLs, Session references) and played step by step with a probe after each step; non-trivial = distinct parsed-request case line. blast: byte-level mutations (truncation at sampled or every offset, flips, insertions, splices), tunnel handshakes and frames on up to 48 simultaneous connections; every server configuration = handler subset x UDP x multicast (x TLS in the thorough tier). slow-reader stage (oracle-only): a peer that PLAYs over interleaved TCP and stops reading, bursts of large packets until the session's writer is blocked in a socket write, then one of 19 actions (PAUSE, TEARDOWN, PLAY, GET_PARAMETER, OPTIONS, SETUP, garbage, half a request, frames, close, reset, silence, ...) at a delay of 0-220 % of WriteTimeout, with / without OnPause handler, 1-2 medias, with / without a well-behaved reader on another connection, with / without reading again; a deterministic corpus plus random scenarios (thorough: a sweep of the delay in steps of 10 % for every action)")
+	ctx.Rule("ledger scenarios: valid RTSP conversations (play TCP/UDP/multicast, record TCP/UDP; plain, WebSocket and HTTP-tunnel carriers; 1-2 connections) mutated at grammar level (steps dropped/duplicated/swapped/spliced/truncated, frames / responses / garbage injected, header fields deleted / duplicated / randomised, Transport lists, SDP bodies, URLs, Session references) and played step by step with a probe after each step; non-trivial = distinct parsed-request case line. blast: byte-level mutations (truncation at sampled or every offset, flips, insertions, splices), tunnel handshakes and frames on up to 48 simultaneous connections; every server configuration = handler subset x UDP x multicast (x TLS in the thorough tier). slow-reader stage (oracle-only): a peer that PLAYs over interleaved TCP and stops reading, bursts of large packets until the session's writer is blocked in a socket write, then one of 19 actions (PAUSE, TEARDOWN, PLAY, GET_PARAMETER, OPTIONS, SETUP, garbage, half a request, frames, close, reset, silence, ...) at a delay of 0-220 % of WriteTimeout, with / without OnPause handler, 1-2 medias, with / without a well-behaved reader on another connection, with / without reading again; a deterministic corpus plus random scenarios (thorough: a sweep of the delay in steps of 10 % for every action). tunnel-storm stage (oracle-only): groups of pre-opened connections that write RTSP-over-HTTP handshake halves sharing X-Sessioncookie values at a common instant - 1 GET then k=2..8 POSTs (every second group, k cycling), everything at once, several GETs, POST before GET, POST + GET + second GET, halves replayed after a completed pairing, two cookies interleaved, peers that close at once, WebSocket upgrades mixed in - round after round against one child (3 children in quick, at least 20 rounds each, normally 150; 6 children x 1500 rounds in thorough, TLS included), with a well-behaved OPTIONS connection in alternating blocks of 8 rounds, plus background linger groups that the server must close itself (a POST right at the end of its GET's 5 s wait)")
 
 	if lines := ctx.ReplayLines(); lines != nil {
 		for _, l := range lines {
@@ -909,6 +911,19 @@ func main() {
 				out.fails = keep
 				out.evals++
 				record(ctx, out)
+			case strings.HasPrefix(l, "T "):
+				cfg, rounds, g, err := parseStorm(l)
+				if err != nil {
+					continue
+				}
+				var o *workerOut
+				if g.Linger {
+					o = stormRun(cfg, nil, []stormGroup{g}, stormOpts{rounds: 1})
+				} else {
+					o = stormRun(cfg, repeatGroup(g, rounds), nil, stormOpts{floor: rounds, rounds: rounds})
+				}
+				record(ctx, o)
+				ctx.Extra("tunnel-storm:"+l, o.extras)
 			case strings.HasPrefix(l, "W "):
 				sc, err := parseSlow(l)
 				if err != nil {
@@ -934,6 +949,14 @@ func main() {
 		o := slowStage(scens, ctx.Budget(8, 12))
 		record(ctx, o)
 		ctx.Extra("slow-reader", o.extras)
+		return
+	}
+
+	if os.Getenv("VERIF_C11_ONLY") == "storm" {
+		// the tunnel-storm stage alone (development / timing)
+		o := stormStage(stormPlans(hx.NewRand(ctx.Rng.U64()), ctx.Thorough), ctx.Thorough)
+		record(ctx, o)
+		ctx.Extra("tunnel-storm", o.extras)
 		return
 	}
 
@@ -1012,12 +1035,23 @@ func main() {
 		slowOut = slowStage(slowScens, ctx.Budget(8, 12))
 		close(slowDone)
 	}()
+	// 4. tunnel-storm stage (oracle-only), concurrently with the others; its seed is drawn after theirs
+	var stormOut *workerOut
+	stormDone := make(chan struct{})
+	stormPl := stormPlans(hx.NewRand(ctx.Rng.U64()), ctx.Thorough)
+	go func() {
+		stormOut = stormStage(stormPl, ctx.Thorough)
+		close(stormDone)
+	}()
 	wg.Wait()
 	<-corpusDone
 	<-slowDone
+	<-stormDone
 	record(ctx, corpusOut) // corpus cases come first in the oracle log
 	record(ctx, slowOut)
 	ctx.Extra("slow-reader", slowOut.extras)
+	record(ctx, stormOut)
+	ctx.Extra("tunnel-storm", stormOut.extras)
 	for i, o := range outs {
 		record(ctx, o)
 		kind := "ledger"
